@@ -1,10 +1,11 @@
 """C11 — JSON Schema validation verdicts are correct (DESIGN.md §4 C11).
 
-Python explorer + python-jsonschema oracle (lib/c11_oracle.py under python3-vt) + C++ executor
-(harness/c11_exec.cpp, ASan+UBSan).  The schema grammar lives in lib/c11_gen.py.
+Python explorer + two references (python-jsonschema and a small specification evaluator, both in
+lib/c11_oracle.py, run under python3-vt) + C++ executor (harness/c11_exec.cpp; ASan+UBSan, -O2 for the
+thorough-only deep families).  The schema grammar lives in lib/c11_gen.py.
 
 Violation signatures (all replayable from the signature alone):
-  S|<dialect>|<hex schema>|<hex instance>                  verdict differs from the reference validator
+  S|<dialect>|<hex schema>|<hex instance>                  verdict differs from the (agreeing) references
   E|<dialect>|<hex schema>|<hex instance>                  is_valid / validate(throwing|reporter|visitor) disagree
   H|<dialect>|<hex schema>|<hex instance array>            verdict (or walk trace) of a compiled schema changed with history
   P|<dialect>|<hex schema>|<hex instance>|<hex schema'>|<hex instance'>   verdict changed under member-order permutation
@@ -26,6 +27,7 @@ LINE_TIMEOUT = 30          # seconds per executor line (watchdog inside the exec
 FULL_CAP = 24              # member-order variants per schema (families explored in both tiers)
 DEEP_CAP = 4               # ... for the thorough-only families
 DEEP = ("D2T", "D3", "UE2", "UI2")
+HIST_N = 24                # history independence: all ordered pairs over the first HIST_N instances of a schema
 
 
 def _bins():
@@ -181,7 +183,7 @@ def work(args):
         ci = len(cases)
         cases.append((fam, s, hs, allinsts, len(insts), perms, hi))
         line = "%s %s %s" % (d, hs, hi)
-        exec_lines.append("%s:h%d %s %s" % (d, len(insts), hs, hi))
+        exec_lines.append("%s:h%d %s %s" % (d, min(len(insts), HIST_N), hs, hi))
         tags.append((ci, None))
         oracle_lines.append(line)
         cap = DEEP_CAP if fam in DEEP else FULL_CAP
@@ -368,18 +370,22 @@ def run(tier):
                "enum/const, min/max incl. exclusive forms and 2^53 limits, multipleOf, min/maxLength, 3 portable patterns, min/maxItems, "
                "uniqueItems, required, min/maxProperties, dependentRequired); D1 = every combinator template (allOf anyOf oneOf not "
                "if/then/else properties patternProperties additionalProperties items/prefixItems/additionalItems contains(+min/maxContains) "
-               "propertyNames dependencies/dependentSchemas $ref to definitions/$defs/anchor/# unevaluatedProperties unevaluatedItems, "
-               "sibling keywords, $ref with siblings) over 8 operand leaves; D2 = templates over depth-1 core schemas; UE1/UI1 = "
-               "unevaluated* next to every in-place applicator over 9-10 annotating atoms; thorough adds D2T (core binary over K1xK1), "
-               "D3 (core unary over depth-2 core) and UE2/UI2 (in-place depth 2).  Each schema x 19 fixed instances + boundary instances "
-               "per keyword class + every member-order permutation of 2-3 member object instances; each schema additionally in every "
-               "member-order permutation of its objects (<= 3 members, product capped at %d variants, %d for the thorough-only families) "
-               "and with \"$schema\" declared first/last.  Counters: schemas_<family>.  non-trivial = schemas for which the instance list "
-               "contains both a valid and an invalid instance." % (FULL_CAP, DEEP_CAP))
+               "propertyNames dependencies/dependentSchemas, $ref to definitions/$defs, to a plain-name anchor, to '#' (recursive) and to the "
+               "location of a subschema under each applicator keyword, unevaluatedProperties unevaluatedItems, sibling keywords, $ref with "
+               "siblings) over 8 operand leaves; D2 = templates over depth-1 core schemas; UE1/UI1 = unevaluated* next to every in-place "
+               "applicator over 9-10 annotating atoms; thorough adds D2T (core binary over K1xK1), D3 (core unary over depth-2 core) and "
+               "UE2/UI2 (in-place depth 2), those on an -O2 executor.  Each schema x 19 fixed instances + boundary instances per keyword "
+               "class + every member-order permutation of 2-3 member object instances; four entry points and walk per instance; history "
+               "independence over all ordered pairs of the first %d instances; each schema additionally in every member-order permutation "
+               "of its objects (<= 3 members, product capped at %d variants, %d for the thorough-only families) and with \"$schema\" "
+               "declared first/last.  Counters: schemas_<family>.  non-trivial = schemas for which the instance list contains both a valid "
+               "and an invalid instance." % (HIST_N, FULL_CAP, DEEP_CAP))
     ck.assumptions = [
-        "reference = python-jsonschema 4.26 validator class of the same dialect, no format checker; schemas it rejects with check_schema are skipped, reference failures are abstentions",
+        "a verdict is demanded only where python-jsonschema 4.26 (validator class of the dialect, no format checker) and the specification evaluator in lib/c11_oracle.py agree; disagreements between the two references are abstentions (abstain_references_disagree)",
+        "2019-09 schemas using unevaluated*: python-jsonschema's legacy implementation contradicts the 2019-09 text, its 2020-12 validator is used on the respelled schema (items[]/additionalItems -> prefixItems/items); where contains meets unevaluatedItems (contains feeds unevaluatedItems only from 2020-12 on, python-jsonschema and jsoncons let it in 2019-09 too) nothing is demanded (abstain_python_jsonschema_has_no_opinion)",
+        "schemas rejected by check_schema are skipped, reference failures are abstentions",
         "Draft 4: no verdict demanded for instances containing an integer-valued float when the schema mentions \"integer\" (the drafts disagree)",
-        "not generated: format, content*, remote references, $dynamicRef/$recursiveRef, $id-based rebasing, patterns outside {^a, b$, a+}, numeric limits that are not exact in binary64, compatibility_mode",
+        "not generated: format, content*, remote references, $dynamicRef/$recursiveRef, $id-based rebasing, patterns outside {^a, b$, a+}, numeric limits that are not exact in binary64, compatibility_mode, `definitions` in 2019-09/2020-12, `$defs` in drafts 4-7, JSON pointers into the siblings of a draft 4-7 $ref below the root",
         "dialect selected with evaluation_options::default_version; the \"$schema\" variants must give the same verdicts",
         "executor is built with ASan+UBSan (leak detection off): a sanitizer report, crash, hang (> %d s per line) or foreign exception is a violation (X|...)" % LINE_TIMEOUT,
     ]
